@@ -242,4 +242,13 @@ def run(ck):
         c08.rule_fg(ck, R)
     finally:
         ck.verdict, ck.violation, ck.floor = orig_v, orig_viol, orig_floor
+    # a request whose answer fits must reach the backend (block sizes 0..capacity): the
+    # exactness half of C09.d is an obligation of this property too
+    from . import c09
+    ck.verdict = lambda ok, rule, key, where='', detail='', **kw: orig_v(ok, 'C06.a', rule + ':' + key, where, detail, **kw) \
+        if key == 'regp_process:read-exact' else None
+    try:
+        c09.rule_d(ck, R)
+    finally:
+        ck.verdict = orig_v
     rule_e(ck, R)
